@@ -310,8 +310,16 @@ def main(argv=None) -> int:
                 cmd = [sys.executable, "-W", "ignore", "-m", "hgverif.cli", pid, "--tier", args.tier, "--seed", str(args.seed),
                        "--shard", str(i), "--shards", str(nshards), "--out", out, "--scale", str(args.scale)]
                 procs.append((i, out, subprocess.Popen(cmd, env=env, cwd=VERIF_DIR, stdout=subprocess.PIPE, stderr=subprocess.STDOUT, text=True)))
+            # wall-clock guard against a hang of the code under test that no in-process detector caught: INCONCLUSIVE (exit 2), never a verdict
+            guard = float(os.environ.get("HGVERIF_SHARD_TIMEOUT", "1500" if args.tier == "quick" else "21600"))
             for i, out, p in procs:
-                stdout, _ = p.communicate()
+                try:
+                    stdout, _ = p.communicate(timeout=max(1.0, guard - (time.time() - t0)))
+                except subprocess.TimeoutExpired:
+                    p.kill()
+                    stdout, _ = p.communicate()
+                    errors.append(f"shard {i} exceeded the {guard:.0f}s wall-clock guard and was stopped (inconclusive)\n{stdout[-1500:]}")
+                    continue
                 if p.returncode != 0 or not os.path.exists(out):
                     errors.append(f"shard {i} died rc={p.returncode}\n{stdout[-3000:]}")
                     continue
